@@ -27,6 +27,8 @@ TYPES = {
     "row": {"attrs": {"start": ("r_start", "Z"), "end": ("r_end", "Z"), "_contents": ("r_contents", "list feat")}},
     "feat": {"attrs": {"start": ("fstart", "Z"), "end": ("fend", "Z")}},
     "rdata": {"attrs": {"start": ("rstart", "Z"), "end": ("rend", "Z")}},
+    "carea": {"attrs": {"location": ("cloc", "loc")}},
+    "cregion": {"attrs": {"location": ("rloc", "loc")}},
     "area": {"attrs": {"neighbouring_start": ("a_ns", "Z"), "neighbouring_end": ("a_ne", "Z"),
                        "start": ("a_start", "Z"), "end": ("a_end", "Z")}},
 }
@@ -47,6 +49,7 @@ HEADERS = {
     "pack": "From ASV Require Import Base Loc.\nFrom ASV.C19 Require Import Model.\nOpen Scope Z_scope.\n",
     # split_origin_bridging_location returns (lower, upper) or raises ValueError; the comparators are only tied for
     # locations on which it does not raise (hypothesis of the tie lemmas), so the pair of the error case is arbitrary
+    "regions": "From ASV Require Import Base Loc.\nFrom ASV.C06 Require Import Model.\nOpen Scope Z_scope.\n",
     "order": ("From ASV Require Import Base Loc.\nOpen Scope Z_scope.\n"
               "Definition split_pair (l : loc) : list part * list part :=\n"
               "  match split_bridging l with Ok p => p | Err _ => ([], []) end.\n"),
@@ -68,6 +71,7 @@ PROPS = {
     "orf": ["C15"],
     "pack": ["C19"],
     "order": ["C04", "C05", "C06", "C08", "C15", "C19"],
+    "regions": ["C06"],
 }
 
 ORDER_CALLS = {
@@ -234,6 +238,29 @@ KERNELS = [
          alias={"self.location": ("v_self_loc", "loc"), "self.type == 'source'": ("v_is_source", "bool")},
          params=[("self_loc", "loc"), ("location", "loc"), ("is_source", "bool")], returns="bool",
          calls=dict(ORDER_CALLS, get_comparator={"coq": "k_feat_comparator", "args": ["loc"], "ret": "(Z * Z)"})),
+    # ------------------------------------------------------------------------------------------------ region creation
+    dict(name="k_sweep_step", group="regions", file=RECORD, func="Record.create_regions", path=[("For", 0)], mode="resm",
+         outputs=["sections", "location", "included_areas"],
+         params=[("area", "carea"), ("location", "loc"), ("included_areas", "list carea"),
+                 ("sections", "list (loc * list carea)"), ("wrap_point", "option Z")],
+         calls={"carea.overlaps_with": {"coq": "(fun a l => overlap (cloc a) l)", "args": ["carea", "loc"], "ret": "bool"},
+                "connect_locations": {"coq": "connect_locations", "kwargs": ["wrap_point"], "args": ["list loc", "option Z"],
+                                      "ret": "loc", "res": True}}),
+    dict(name="k_fixup_needed", group="regions", file=RECORD, func="Record.create_regions", pick=("Assign", 2),
+         outputs=["merged"], params=[("sections", "list (loc * list carea)")], returns="bool"),
+    dict(name="k_fixup_overlap_test", group="regions", file=RECORD, func="Record.create_regions",
+         path=[("While", 0), ("For", 0)], skip_n=1, take=1, expr="test.operand",
+         calls={"locations_overlap": {"coq": "overlap", "args": ["loc", "loc"], "ret": "bool"}},
+         params=[("first_location", "loc"), ("other_location", "loc")], returns="bool"),
+    dict(name="k_add_region_start_ok", group="regions", file=RECORD, func="Record.add_region", pick=("Assert", 1),
+         expr="test", params=[("region", "cregion")], returns="bool"),
+    dict(name="k_add_region_end_ok", group="regions", file=RECORD, func="Record.add_region", pick=("Assert", 2),
+         expr="test", alias={"len(self)": ("v_N", "Z")}, params=[("region", "cregion"), ("N", "Z")], returns="bool"),
+    dict(name="k_add_region_overlap_test", group="regions", file=RECORD, func="Record.add_region", path=[("For", 0)],
+         take=1, expr="test",
+         calls={"cregion.overlaps_with": {"coq": "(fun a b => overlap (rloc a) (rloc b))", "args": ["cregion", "cregion"],
+                                          "ret": "bool"}},
+         params=[("region", "cregion"), ("existing_region", "cregion")], returns="bool"),
     # ------------------------------------------------------------------------------------------------ region GenBank files
     dict(name="k_region_crosses_origin", group="regiongbk", file=RHELP, func="RegionData.crosses_origin",
          params=[("self", "rdata")], returns="bool"),
